@@ -105,6 +105,19 @@ def enc_steps(steps):
     return ";".join(out)
 
 
+def tname(i):
+    """real table name: ids >= 1000 are `twins` living in schema s1 with the NAME of table id-1000"""
+    return "t%d" % (i % 1000)
+
+
+def tschema(i):
+    return "s1" if i >= 1000 else None
+
+
+def tkey(i):
+    return ("s1." if i >= 1000 else "") + tname(i)
+
+
 def build_metadata(tables):
     """real MetaData for a spec; returns (metadata, {id: Table})"""
     from sqlalchemy import Column, ForeignKey, ForeignKeyConstraint, Index, Integer, MetaData, Table, UniqueConstraint
@@ -117,22 +130,22 @@ def build_metadata(tables):
         for f in t["fkcs"]:
             name = "fk%d" % f["id"] if f["named"] else None
             if f.get("via") == "col":
-                cols.append(Column("c%d" % f["id"], Integer, ForeignKey("t%d.id" % f["ref"], name=name, use_alter=f["ua"])))
+                cols.append(Column("c%d" % f["id"], Integer, ForeignKey("%s.id" % tkey(f["ref"]), name=name, use_alter=f["ua"])))
             elif f.get("ncols", 1) == 2:
                 cols.append(Column("c%d" % f["id"], Integer))
                 cols.append(Column("d%d" % f["id"], Integer))
                 cons.append(
                     ForeignKeyConstraint(
                         ["c%d" % f["id"], "d%d" % f["id"]],
-                        ["t%d.id" % f["ref"], "t%d.id2" % f["ref"]],
+                        ["%s.id" % tkey(f["ref"]), "%s.id2" % tkey(f["ref"])],
                         name=name,
                         use_alter=f["ua"],
                     )
                 )
             else:
                 cols.append(Column("c%d" % f["id"], Integer))
-                cons.append(ForeignKeyConstraint(["c%d" % f["id"]], ["t%d.id" % f["ref"]], name=name, use_alter=f["ua"]))
-        tb = Table("t%d" % t["id"], m, *(cols + cons))
+                cons.append(ForeignKeyConstraint(["c%d" % f["id"]], ["%s.id" % tkey(f["ref"])], name=name, use_alter=f["ua"]))
+        tb = Table(tname(t["id"]), m, *(cols + cons), schema=tschema(t["id"]))
         for ix in t["idx"]:
             Index("ix%d" % ix, tb.c.id2)
         objs[t["id"]] = tb
@@ -142,13 +155,18 @@ def build_metadata(tables):
     return m, objs
 
 
+TBL = r"(s1\.)?t(\d+)"
 STMT = [
-    (re.compile(r"^CREATE TABLE t(\d+) \("), "CT"),
-    (re.compile(r"^CREATE INDEX ix(\d+) ON t(\d+) "), "CI"),
-    (re.compile(r"^ALTER TABLE t(\d+) ADD (?:CONSTRAINT \w+ )?FOREIGN KEY\(c(\d+)"), "AC"),
-    (re.compile(r"^ALTER TABLE t(\d+) DROP (?:CONSTRAINT|FOREIGN KEY) fk(\d+)$"), "DC"),
-    (re.compile(r"^DROP TABLE t(\d+)$"), "DT"),
+    (re.compile(r"^CREATE TABLE %s \(" % TBL), "CT"),
+    (re.compile(r"^CREATE INDEX ix(\d+) ON %s " % TBL), "CI"),
+    (re.compile(r"^ALTER TABLE %s ADD (?:CONSTRAINT \w+ )?FOREIGN KEY\(c(\d+)" % TBL), "AC"),
+    (re.compile(r"^ALTER TABLE %s DROP (?:CONSTRAINT|FOREIGN KEY) fk(\d+)$" % TBL), "DC"),
+    (re.compile(r"^DROP TABLE %s$" % TBL), "DT"),
 ]
+
+
+def _tid(prefix, num):
+    return int(num) + (1000 if prefix else 0)
 
 
 def tokenize(sql):
@@ -160,12 +178,12 @@ def tokenize(sql):
             continue
         if kind == "CT":
             fids = sorted(int(x) for x in re.findall(r"FOREIGN KEY\(c(\d+)", s))
-            return "CT%s[%s]" % (mm.group(1), ",".join(map(str, fids)) or "-")
+            return "CT%d[%s]" % (_tid(mm.group(1), mm.group(2)), ",".join(map(str, fids)) or "-")
         if kind == "CI":
-            return "CI%s.%s" % (mm.group(2), mm.group(1))
+            return "CI%d.%s" % (_tid(mm.group(2), mm.group(3)), mm.group(1))
         if kind in ("AC", "DC"):
-            return "%s%s.%s" % (kind, mm.group(1), mm.group(2))
-        return "DT%s" % mm.group(1)
+            return "%s%d.%s" % (kind, _tid(mm.group(1), mm.group(2)), mm.group(3))
+        return "DT%d" % _tid(mm.group(1), mm.group(2))
     return "??" + s[:60].replace(" ", "_")
 
 
@@ -354,8 +372,11 @@ def run_script_mock(spec, dialect):
 
     eng = create_mock_engine(dialect + "://", ex)
     d = eng.dialect
-    d.has_table = lambda conn, name, schema=None, **kw: name in present
-    d.has_multi_table = lambda conn, names, schema=None, **kw: {(schema, n): (n in present) for n in names}
+    def _has(n, schema):
+        return (int(n[1:]) + (1000 if schema == "s1" else 0)) in present
+
+    d.has_table = lambda conn, name, schema=None, **kw: _has(name, schema)
+    d.has_multi_table = lambda conn, names, schema=None, **kw: {(schema, n): _has(n, schema) for n in names}
     d.has_index = lambda conn, tname, iname, schema=None, **kw: False
     d.has_sequence = lambda conn, name, schema=None, **kw: False
     res = []
@@ -364,7 +385,7 @@ def run_script_mock(spec, dialect):
         for kind, cf, sub in spec["steps"]:
             del out[:]
             if kind == "X":  # out-of-band DROP TABLE .. CASCADE: nothing goes through SQLAlchemy
-                present.discard("t%d" % sub[0])
+                present.discard(sub[0])
                 res.append((["X"], None))
                 continue
             tbls = None if sub is None else [objs[i] for i in sub]
@@ -383,9 +404,9 @@ def run_script_mock(spec, dialect):
             toks = [tokenize(s) for s in out]
             for t in toks:
                 if t.startswith("CT"):
-                    present.add("t" + t[2:].split("[")[0])
+                    present.add(int(t[2:].split("[")[0]))
                 elif t.startswith("DT"):
-                    present.discard("t" + t[2:])
+                    present.discard(int(t[2:]))
             res.append((toks, err))
     return res
 
@@ -672,7 +693,7 @@ def run_sorts(spec):
                 if not pos[p] < pos[i]:
                     bad.append(("sort-extra-dependency", "%s: t%d depends on t%d: %s" % (name, i, p, order)))
     # sorted_tables
-    key_sorted = sorted(tables, key=lambda t: "t%d" % t["id"])
+    key_sorted = sorted(tables, key=lambda t: tkey(t["id"]))
     reqs.append("ddl sortedtables %s" % enc_tables(key_sorted))
     with warnings.catch_warnings():
         warnings.simplefilter("ignore")
@@ -712,6 +733,23 @@ def mk_fk(rng, fid, ref, ua=None, named=None):
         "via": rng.choice(["col", "fkc", "fkc"]),
         "ncols": rng.choice([1, 1, 2]),
     }
+
+
+def add_twins(rng, tables):
+    """a table in schema s1 with the same NAME as a table of the default schema (mock dialects only)"""
+    base = rng.choice(tables)
+    ids = [t["id"] for t in tables]
+    twin = {"id": base["id"] + 1000, "fkcs": [], "extra": [], "idx": []}
+    fid = max([f["id"] for t in tables for f in t["fkcs"]] + [100]) + 50
+    for _ in range(rng.randint(0, 2)):
+        fid += 1
+        twin["fkcs"].append(mk_fk(rng, fid, rng.choice(ids + [twin["id"]])))
+    for t in tables:
+        if rng.random() < 0.3:
+            fid += 1
+            t["fkcs"].append(mk_fk(rng, fid, twin["id"]))
+    pos = rng.randint(0, len(tables))
+    return tables[:pos] + [twin] + tables[pos:]
 
 
 def gen_schema(rng, maxn):
@@ -1047,9 +1085,13 @@ def run(ctx, deep=False):
     maxn = 9 if thorough else 6
     for k in range(nrand):
         tables = gen_schema(rng, maxn)
+        with_sqlite = (k % 2 == 0) if not thorough else (k % 3 != 0)
+        if not with_sqlite and rng.random() < 0.35:
+            tables = add_twins(rng, tables)
+            ctx.count("schema-twin")
         nfk = sum(len(t["fkcs"]) for t in tables)
         ss = gen_steps_strict(rng, tables)
-        sq = gen_steps_sqlite(rng, tables) if (thorough or k % 2 == 0) else None
+        sq = gen_steps_sqlite(rng, tables) if with_sqlite else None
         dialects = ALTER_DIALECTS if (thorough and k % 4 == 0) else [rng.choice(ALTER_DIALECTS)]
         ctx.case(("rand", enc_tables(tables), enc_steps(ss)), nontrivial=nfk > 0)
         ctx.count("tables=%d" % len(tables))
